@@ -25,6 +25,7 @@ mod c19;
 mod c20;
 mod queries;
 mod x01;
+mod x02;
 
 use std::path::PathBuf;
 
@@ -101,6 +102,7 @@ fn main() {
     "C19" => c19::run(&ctx),
     "C20" => c20::run(&ctx),
     "X01" => x01::run(&ctx),
+    "X02" => x02::run(&ctx),
     _ => {
       eprintln!("unknown property {}", prop);
       std::process::exit(2);
